@@ -1,10 +1,15 @@
 import BigtreeModel.Proto
 import BigtreeModel.Drv.C01
+import BigtreeModel.Drv.C10
+import BigtreeModel.Drv.C11
 /-! Driver handler for property C02: dispatches on `cls=`.  `base|node` histories are the C01
-histories (outcome and whole store after every call). -/
+histories, `binary` the C11 histories, `dag` the C10 histories (outcome and whole store after
+every call). -/
 namespace Drv.C02
 def handle (toks : List String) : String :=
   match Proto.kv toks "cls" with
   | some "base" | some "node" => Drv.C01.handle toks
+  | some "binary" => Drv.C11.handle toks
+  | some "dag" => Drv.C10.handle toks
   | _ => "bad-op"
 end Drv.C02
